@@ -123,6 +123,7 @@ def decode_all(store_objs, keys_by_user, key_files, encrypted):
 def direction1(run, quick, rng):
     traces = []
     grid = c01.GRID if not quick else c01.GRID[:4] + c01.GRID[-2:]
+    wide = {0} if quick else {0, 1, 2}
     for gi, cfg in enumerate(grid):
         for rep in range(1 if quick else 4):
             with harness.scratch() as d:
@@ -134,6 +135,9 @@ def direction1(run, quick, rng):
                     w.add_key('a', 'b', b'pw-b', shared=True, settings_={'encryption': {'kdf': dict(harness.FAST_KDF)}})
                 users = sorted(w.users)
                 tree = {('f%d.bin' % i): rng.randbytes(rng.choice([0, 1, 5, cfg['mx'], 3 * cfg['mx'] + 1, 500])) for i in range(4)}
+                if rep == 0 and gi in wide:
+                    # a WIDE snapshot: hundreds of files, a private section of well over 64 KiB (size-dependent encodings are invisible in small ones)
+                    tree.update({('w/%02d/n%03d.dat' % (i % 7, i)): rng.randbytes(rng.choice([0, 3, 17, 40])) for i in range(420)})
                 harness.write_tree(d / 'src', tree)
                 for u in users:
                     o = w.snapshot(u, [d / 'src'], note=rng.choice([None, 'a note']))
